@@ -84,7 +84,7 @@ Theorem reopen_works s :
   r2 = LOk /\
   exists c, nth_error (lf_objs s2) (length (lf_objs s)) = Some c /\
             lc_id c = 1 /\ lc_state c = OPEN /\ lc_confirm c = false /\ lc_inbound c = 0 /\
-            lc_errs c = 0 /\ lc_registered c = true /\
+            lc_errs c = [] /\ lc_registered c = true /\
             snd (lstep s2 (LDeclare (length (lf_objs s)))) = LOk.
 Proof.
   cbn -[alloc registry nth_error].
@@ -111,7 +111,7 @@ Theorem channel_reopen_fresh s k c :
   lc_registered c = true -> lc_state c = CLOSED ->
   let '(s', r) := lstep s (LChOpen k) in
   r = LOk /\ exists c', nth_error (lf_objs s') k = Some c' /\ lc_id c' = lc_id c /\
-                        lc_state c' = OPEN /\ lc_confirm c' = false /\ lc_inbound c' = 0 /\ lc_errs c' = 0.
+                        lc_state c' = OPEN /\ lc_confirm c' = false /\ lc_inbound c' = 0 /\ lc_errs c' = [].
 Proof.
   intros Hn Hc He Hr Hs. cbn -[nth_error]. rewrite Hn, Hc, Hr, Hs. cbn -[nth_error].
   unfold conn_check. rewrite He, Hc. cbn -[nth_error]. split; [reflexivity|].
@@ -159,7 +159,7 @@ Lemma res_le_chan_check s k c : res_le (fst (chan_check s k c)) s.
 Proof.
   unfold chan_check. pose proof (res_le_conn_check s) as H. destruct (conn_check s) as [s1 [|]]; cbn in *.
   - eapply res_le_trans; [apply res_le_mark | exact H].
-  - destruct (lc_errs c); [destruct (cstate_eqb (lc_state c) CLOSED)|destruct (cstate_eqb (lc_state c) OPEN)];
+  - destruct (lc_errs c) as [|e n]; [destruct (cstate_eqb (lc_state c) CLOSED)|destruct (cstate_eqb (lc_state c) OPEN || e)];
       cbn; first [apply res_le_refl | apply res_le_upd].
 Qed.
 
